@@ -4,7 +4,7 @@
    kinds with reserved bytes (mvhd tkhd sidx mdhd hdlr tenc smhd tfra avcC colr elng, Visual/AudioSampleEntry)
    the decoder is replayed on the new bytes.  Every kind also fills exactly Size() bytes (C01SizeProofs). *)
 From V.lib Require Import Base.
-From V.c01 Require Import C01Codec C01Model C01LeafProofs C01Leaf2Proofs C01Leaf3Proofs C01Leaf4Proofs
+From V.c01 Require Import C01Codec C01Model C01LeafProofs C01Leaf2Proofs C01Leaf3Proofs C01Leaf4Proofs C01Leaf5Proofs
   C01TableProofs C01TreeProofs C01SizeProofs C01LocalProofs.
 
 (* the header seen at decode is the one the encoder writes (what exact_box asks of a leaf) *)
@@ -70,7 +70,8 @@ Qed.
 (* ---------------------------------------------------------------- no captured bytes *)
 Ltac nors := intros h r l rsv r' H; cbv beta delta [dec_ftyp dec_free dec_mfhd dec_tfhd dec_tfdt dec_trun dec_trex dec_stts
   dec_stsc dec_stsz dec_tab dec_sdtp dec_ctts dec_elst dec_saiz dec_saio dec_sbgp dec_prft dec_frma dec_vmhd dec_fullonly
-  dec_mfro dec_mehd dec_pssh dec_url dec_btrt dec_pasp dec_clap dec_schm dec_cslg dec_senc dec_emsg dec_kind dec_stsd dec_dref] in H;
+  dec_mfro dec_mehd dec_pssh dec_url dec_btrt dec_pasp dec_clap dec_schm dec_cslg dec_senc dec_emsg dec_kind dec_stsd dec_dref
+  dec_subs] in H;
   nrun H; unfold pret in H; injection H; intros; subst; reflexivity.
 
 Lemma norsv_ftyp : norsv dec_ftyp. Proof. nors. Qed.
@@ -108,13 +109,14 @@ Lemma norsv_emsg : norsv dec_emsg. Proof. nors. Qed.
 Lemma norsv_kind : norsv dec_kind. Proof. nors. Qed.
 Lemma norsv_stsd : norsv dec_stsd. Proof. nors. Qed.
 Lemma norsv_dref : norsv dec_dref. Proof. nors. Qed.
+Lemma norsv_subs : norsv dec_subs. Proof. nors. Qed.
 
 (* ---------------------------------------------------------------- decoded leaves satisfy the size guard of C02 *)
 Ltac pows := change (256 ^ N.of_nat 4) with 4294967296 in *; change (256 ^ N.of_nat 1) with 256 in *;
              change (256 ^ N.of_nat 2) with 65536 in *.
 Ltac triv_sized := intros h r l rsv r' _ _ H; cbv beta delta [dec_mfhd dec_tfhd dec_tfdt dec_trex dec_stsc dec_sdtp dec_prft
   dec_vmhd dec_mfro dec_mehd dec_url dec_btrt dec_pasp dec_clap dec_cslg dec_emsg dec_kind dec_stsd dec_dref
-  dec_mvhd dec_tkhd dec_sidx dec_mdhd dec_smhd] in H;
+  dec_mvhd dec_tkhd dec_sidx dec_mdhd dec_smhd dec_subs] in H;
   nrun H; unfold pret in H; injection H; intros; subst; reflexivity.
 
 Lemma psized_mfhd : psized dec_mfhd. Proof. triv_sized. Qed.
@@ -141,6 +143,7 @@ Lemma psized_tkhd : psized dec_tkhd. Proof. triv_sized. Qed.
 Lemma psized_sidx : psized dec_sidx. Proof. triv_sized. Qed.
 Lemma psized_mdhd : psized dec_mdhd. Proof. triv_sized. Qed.
 Lemma psized_smhd : psized dec_smhd. Proof. triv_sized. Qed.
+Lemma psized_subs : psized dec_subs. Proof. triv_sized. Qed.
 
 Ltac rew_bools :=
   repeat match goal with
@@ -634,6 +637,61 @@ Proof.
   intros r2. unfold dec_avcC, pbind. rewrite rdB_lit by exact Hpl. rewrite Hrec, Hd. reflexivity.
 Qed.
 
+(* ---------------------------------------------------------------- hvcC *)
+Lemma hvcc_rec_stable data l rsv extra : bytes_ok data = true -> hvcc_rec data = Ok ((l, rsv), extra) ->
+  exists b', body_leaf l (dflt_rsv l) = Ok b' /\ lenN b' + lenN extra = lenN data /\
+             hvcc_rec b' = Ok ((l, [[15]; [63]; [63]; [31]; [31]]), []).
+Proof.
+  intros Hok H. unfold hvcc_rec in H. run H.
+  apply pbind_ok in H. destruct H as (arrs & r1 & E1 & H).
+  match type of E1 with rd_many _ _ _ ?x = _ => match goal with Hk : bytes_ok x = true |- _ =>
+    destruct (many_const_replay _ _ local_narr item_narr _ _ _ _ _ Hk E1) as (-> & Hl1 & Hk1 & Hf1 & Hrep1) end end.
+  inj_pret H. apply negb_false_iff, N.eqb_eq in Hc, Hc0. subst. pows.
+  set (A := N.lor (N.lor (u8 ((a0 / 64) mod 4 * 64)) (if (a0 / 32) mod 2 =? 1 then 32 else 0)) (a0 mod 32)).
+  set (B := N.lor (N.lor (N.lor (u8 ((a10 / 64) mod 4 * 64)) (u8 ((a10 / 8) mod 8 * 8))) (u8 ((a10 / 4) mod 2 * 4))) 3).
+  assert (HA : A = a0) by (apply hvcc_byte1; assumption).
+  assert (HB : B = a10) by (apply hvcc_byte2; assumption).
+  assert (Hm : N.lor (hd 0 [15] * 4096) (a4 mod 4096) = 61440 + a4 mod 4096).
+  { cbn [hd]. change 4096 with (2 ^ 12) at 1. rewrite lor_shifted_add by (cbn; lia). cbn; lia. }
+  assert (Hp : forall x, N.lor (hd 0 [63] * 4) (x mod 4) = 252 + x mod 4).
+  { intros x. cbn [hd]. change 4 with (2 ^ 2) at 1. rewrite lor_shifted_add by (cbn; lia). cbn; lia. }
+  assert (Hq : forall x, N.lor (hd 0 [31] * 8) (x mod 8) = 248 + x mod 8).
+  { intros x. cbn [hd]. change 8 with (2 ^ 3) at 1. rewrite lor_shifted_add by (cbn; lia). cbn; lia. }
+  eexists. split; [cbn [body_leaf dflt_rsv chunk nth]; reflexivity|].
+  fold A B. rewrite HA, HB, Hm, !Hp, !Hq.
+  split.
+  { repeat rewrite lenN_app. repeat rewrite lenN_be_enc. change (lenN (@nil N)) with 0. lia. }
+  unfold hvcc_rec, pbind. repeat rewrite <- app_assoc.
+  rewrite rd_enc by lia. change (negb (1 =? 1)) with false. cbv beta iota.
+  repeat (first [ rewrite rd_enc by (first [assumption | pows; lia]) ]; cbv beta iota).
+  rewrite Hc0. change (negb (3 =? 3)) with false. cbv beta iota.
+  repeat (first [ rewrite rd_enc by (first [assumption | pows; lia]) ]; cbv beta iota).
+  rewrite app_nil_r. rewrite <- (app_nil_r (flat_map wr_narr arrs)) at 1. rewrite Hrep1. cbv beta iota. unfold pret.
+  replace ((61440 + a4 mod 4096) mod 4096) with (a4 mod 4096) by lia. replace ((61440 + a4 mod 4096) / 4096) with 15 by lia.
+  replace ((252 + a5 mod 4) mod 4) with (a5 mod 4) by lia. replace ((252 + a5 mod 4) / 4) with 63 by lia.
+  replace ((252 + a6 mod 4) mod 4) with (a6 mod 4) by lia. replace ((252 + a6 mod 4) / 4) with 63 by lia.
+  replace ((248 + a7 mod 8) mod 8) with (a7 mod 8) by lia. replace ((248 + a7 mod 8) / 8) with 31 by lia.
+  replace ((248 + a8 mod 8) mod 8) with (a8 mod 8) by lia. replace ((248 + a8 mod 8) / 8) with 31 by lia.
+  reflexivity.
+Qed.
+
+Lemma hvcc_shape data l rsv extra : hvcc_rec data = Ok ((l, rsv), extra) ->
+  leaf_size_guard l = true /\ dflt_rsv l = [[15]; [63]; [63]; [31]; [31]; []].
+Proof.
+  intros E. unfold hvcc_rec in E. nrun E. unfold pret in E. injection E as <- _ _. split; reflexivity.
+Qed.
+
+Lemma stable_hvcC : leaf_stable dec_hvcC.
+Proof.
+  intros h r l rsv r' Hok Hnm H G (Hsz & Hlen & Hmax) _. unfold dec_hvcC in H. step H.
+  destruct (hvcc_rec a) as [[[l0 rsv0] extra]| | |] eqn:E; try discriminate. injection H as <- <- <-.
+  destruct (hvcc_rec_stable _ _ _ _ Hx E) as (b' & Hb' & Hlens & Hrec).
+  destruct (hvcc_shape _ _ _ _ E) as [Hg Hd]. pose proof (body_size _ _ Hb' Hg) as Hbs.
+  assert (Hpl : lenN b' = payload_len h) by (unfold payload_len; lia).
+  exists b'. split; [exact Hb'|]. split; [rewrite lenN_app; lia|]. split; [exact Hbs|].
+  intros r2. unfold dec_hvcC, pbind. rewrite rdB_lit by exact Hpl. rewrite Hrec, Hd. reflexivity.
+Qed.
+
 (* ---------------------------------------------------------------- every table entry *)
 Lemma pre_leaf_stable d : pre_stable d -> leaf_stable d.
 Proof. intros H h r l rsv r' Hok Hnm E G _ _. exact (H _ _ _ _ _ Hok Hnm E G). Qed.
@@ -676,6 +734,7 @@ Lemma stable_cslg : leaf_stable dec_cslg. Proof. sol lossless_cslg local_cslg no
 Lemma stable_senc : leaf_stable dec_senc. Proof. sol lossless_senc local_senc norsv_senc sized_senc. Qed.
 Lemma stable_emsg : leaf_stable dec_emsg. Proof. sol lossless_emsg local_emsg norsv_emsg psized_emsg. Qed.
 Lemma stable_kind : leaf_stable dec_kind. Proof. sol lossless_kind local_kind norsv_kind psized_kind. Qed.
+Lemma stable_subs : leaf_stable dec_subs. Proof. sol lossless_subs local_subs norsv_subs psized_subs. Qed.
 
 Lemma pstable_stsd : pre_stable dec_stsd.
 Proof. apply pre_stable_of_local; [exact lossless_stsd|exact local_stsd|exact norsv_stsd|exact psized_stsd]. Qed.
@@ -696,7 +755,7 @@ Proof.
           | exact (pre_leaf_stable _ pstable_tfra) | exact stable_pssh | exact stable_url | exact stable_avcC
           | exact stable_btrt | exact stable_pasp | exact (pre_leaf_stable _ pstable_colr) | exact stable_clap
           | exact stable_schm | exact stable_cslg | exact stable_senc | exact stable_emsg | exact stable_elng
-          | exact stable_kind ].
+          | exact stable_kind | exact stable_hvcC | exact stable_subs ].
 Qed.
 
 Lemma pre_table_stable : Forall (fun e => pre_stable (fst (snd e))) pre_table.
